@@ -191,6 +191,10 @@ func (p *Program) ModuleFunctions() []*ssa.Function {
 	return out
 }
 
+// EveryModuleFunction includes the functions that did not exist at review time (for rules that are local to one
+// function body and need no reviewed table).
+func (p *Program) EveryModuleFunction() []*ssa.Function { return p.allModuleFunctions() }
+
 // allModuleFunctions includes the functions that did not exist at review time.
 func (p *Program) allModuleFunctions() []*ssa.Function {
 	var out []*ssa.Function
